@@ -269,6 +269,7 @@ def from_stride(repo: Repo, chk: Check) -> None:
                "outer steps are derived from the inner bounds, innermost first (reversed(tile_bounds[1:]))",
                "the loop deriving outer steps does not run over reversed(tile_bounds[1:])")
     ok_step = False
+    reversed_steps = None
     for s in fl.stmts(ast.Assign):
         if s.loops:
             v = s.node.value
@@ -286,6 +287,19 @@ def from_stride(repo: Repo, chk: Check) -> None:
             if norm.any_match(["$b * $s[0] if $b and $s[0] else None", "$s[0] * $b if $b and $s[0] else None", "$b * $s[0] if $s[0] and $b else None",
                                "$b * $s[0] if $b is not None and $s[0] is not None else None"], s.expand(c_.args[1]), {"b": lv, "s": lst_}) is not None:
                 ok_step = True
+    for s in fl.calls("append"):
+        # innermost-first: `steps.append(bound * steps[-1] if bound and steps[-1] else None)` with a single reversal before the zip
+        c_ = s.node
+        lv = s.loops[-1].target.id if s.loops and isinstance(s.loops[-1], ast.For) and isinstance(s.loops[-1].target, ast.Name) else None
+        if lv and len(c_.args) == 1 and isinstance(c_.func, ast.Attribute):
+            lst_ = ast.unparse(c_.func.value)
+            if norm.any_match(["$b * $s[-1] if $b and $s[-1] else None", "$s[-1] * $b if $b and $s[-1] else None", "$b * $s[-1] if $s[-1] and $b else None"],
+                              s.expand(c_.args[0]), {"b": lv, "s": lst_}) is not None:
+                rev = [x for x in fl.calls("reverse") if x.reachable and not x.loops and ast.unparse(x.node.func.value) == lst_]  # type: ignore[attr-defined]
+                rev_slices = [n for n in ast.walk(f.node) if isinstance(n, ast.Subscript) and ast.unparse(n.value) == lst_ and ast.unparse(n.slice) == "::-1"]
+                if len(rev) + len(rev_slices) == 1:
+                    ok_step = True
+                    reversed_steps = lst_
     chk.result(ok_step, "C10.from-stride", f"{f.key}:chain", f.where, "new outer step = bound * (current outermost step), None if either is dynamic",
                "the step chain of from_stride changed: expected `[bound * steps[0] if bound and steps[0] else None, *steps]`")
     ok_ret = False
@@ -343,12 +357,14 @@ def canonicalize(repo: Repo, chk: Check, rule: str = "C10.canon") -> None:
         if kept:
             chk.ok(rule, f"{f.key}:keep-innermost", s.where(), "the innermost level is always kept")
             continue
-        ok = bool(has_fact(s, ["$o.bound == 1"], {"o": lv})) and any(
-            isinstance(parent.get(id(c.node)), ast.If) and c.line < s.line for c in conts if c is not s)
+        # "not the innermost": an earlier `continue` took the first level away, or something has been collected already
+        not_first = any(isinstance(parent.get(id(c.node)), ast.If) and c.line < s.line for c in conts if c is not s) or bool(has_fact(
+            s, ["len($x) != 0", "len($x) > 0", "$x", "($x[-1] if $x else None) is not None", "($x[0] if $x else None) is not None"]))
+        ok = bool(has_fact(s, ["$o.bound == 1"], {"o": lv})) and not_first
         chk.result(ok, rule, f"{f.key}:drop@{n}", s.where(), "a level is dropped only if its bound is 1 and it is not the innermost",
                    "a level is skipped under a condition other than `bound == 1 and not innermost`", s.fact_texts)
     ins = [s for s in fl.calls("insert", "append") if s.reachable]  # collected outermost-first (insert(0, ..)) or innermost-first (append)
-    first_keep = [s for s in ins if has_fact(s, ["len($x) == 0", "not $x"])]
+    first_keep = [s for s in ins if has_fact(s, ["len($x) == 0", "not $x", "($x[-1] if $x else None) is None", "($x[0] if $x else None) is None"])]
     chk.result(bool(first_keep), rule, f"{f.key}:innermost-inserted", first_keep[0].where() if first_keep else f.where,
                "the innermost level is inserted unconditionally (before any merge/drop test)",
                "the innermost level is no longer kept unconditionally")
